@@ -34,7 +34,7 @@ Qed.
 (* reduction of the state only: the invariant stays folded *)
 Ltac red_state :=
   lazy beta iota zeta delta [fst snd
-     step_gen pre_attach pre_static_ready execute_remove_publisher
+     step_gen pre_attach pre_static_ready execute_remove_publisher clear_timers close_source close_demand close_stream
      set_not_available set_available set_online set_offline call_unavailable hook_open hook_close panic
      handler_start handler_stop ss_start ss_schedule_close ss_stop pub_start pub_schedule_close pub_stop
      bump_on_demand fail_on_hold whenM bindM modify emit ret timer_armed disarm cur_stream
